@@ -5,7 +5,8 @@
    SSL error code under every SSLError subclass, socket.timeout). *)
 From Coq Require Import List ZArith Bool String.
 Import ListNotations.
-Require Import V.C25.Model V.gen.C25_Tables V.C25.Spec V.C25.Proofs V.C25.Bridge.
+Require Import V.C25.Model V.gen.C25_Tables V.C25.Spec V.C25.Proofs V.C25.Bridge V.C25.Gram.
+From Coq Require Import Permutation.
 Require V.C24.Model.
 Open Scope Z_scope.
 
@@ -101,6 +102,39 @@ Theorem tx_once_in_order_under_classified_errors : forall k t w conn hs,
   (V.C24.Model.accepted s ++ List.concat (V.C24.Model.txes s))%list = V.C24.Model.queued s.
 Proof. exact end_to_end. Qed.
 Print Assumptions tx_once_in_order_under_classified_errors.
+
+(* THE RETRY CONSEQUENCE on the datagram stack (model V.C25.Gram of GramStack serviceTxPkts /
+   serviceTxPktsOnce / serviceAllTx / serviceAllTxOnce and of the receive entry points), over
+   EVERY history of enqueues and service calls through any entry point and EVERY oracle:
+   - every packet is accounted for: sent ++ still queued ++ dropped-by-a-propagating-error is a
+     permutation of everything queued (nothing duplicated, nothing vanishes silently);
+   - if no send / receive error of the history is a propagating one (only transient destination
+     errors, which the extracted table classifies Requeue / Quiet), NOTHING is dropped and nothing
+     is raised: sent ++ still queued is a permutation of everything queued -- a transient send
+     error never loses a packet, on the full pass and on the single-shot path alike;
+   - the single-shot path keeps a transiently failed head packet AT THE HEAD of the deque, and a later
+     pass without failures sends everything that is queued;
+   - the receive queue only ever grows;
+   - on histories that use only the single-shot tx entry points (no propagating send error) the
+     ORDER is preserved exactly: sent followed by still queued is the queued sequence itself (hence
+     also per destination). *)
+Theorem gram_transient_error_never_loses_a_packet :
+  (forall ops, Permutation (sent (grun ops) ++ txq (grun ops) ++ lost (grun ops))%list (queued (grun ops))) /\
+  (forall ops, forallb no_fatal ops = true ->
+     lost (grun ops) = [] /\ raised (grun ops) = 0%nat /\
+     Permutation (sent (grun ops) ++ txq (grun ops))%list (queued (grun ops))) /\
+  (forall p q s, txq s = p :: q ->
+     txq (gstep s (TxOnce STransient)) = (p :: q)%list /\ sent (gstep s (TxOnce STransient)) = sent s /\
+     lost (gstep s (TxOnce STransient)) = lost s /\ raised (gstep s (TxOnce STransient)) = raised s) /\
+  (forall s, txq (gstep s (TxAll [])) = [] /\ sent (gstep s (TxAll [])) = (sent s ++ txq s)%list) /\
+  (forall s o, exists new, rxq (gstep s o) = (rxq s ++ new)%list) /\
+  (forall ops, forallb single_shot ops = true ->
+     (sent (grun ops) ++ txq (grun ops))%list = queued (grun ops)).
+Proof.
+  exact (conj grun_accounted (conj grun_transient_never_loses (conj once_transient_keeps
+        (conj later_pass_sends_all (conj rx_grows single_shot_keeps_order))))).
+Qed.
+Print Assumptions gram_transient_error_never_loses_a_packet.
 
 (* non-vacuity / documented wart: the universes are not empty, and on a TLS site an OSError whose
    errno happens to equal an SSL code is taken for that SSL condition (ENOENT = 2 = WANT_READ) *)
